@@ -12,8 +12,9 @@ import IronCalc.User.History
 
   Column and row descriptors: this model keeps, per sheet, the per-column / per-row VIEW
   (`colAt : Int → ColView`), i.e. what `get_column_width`/`is_column_hidden`/`get_column_style`
-  answer.  `Sheet/Cols.lean` models the descriptor list of `worksheet.rs` itself and proves that
-  `set_column_width_and_style` acts on the view as the point update used here.
+  answer.  `set_column_width_and_style` (descriptor list surgery in `worksheet.rs`) acts on these
+  first-match lookups as the point update used here, whatever the descriptor layout; that step is
+  argued in notes/C02.md and exercised by the tie, not proved in Lean.
 
   NOT modelled here (covered by the implementation-level oracles only): cell contents and styles,
   structural edits, named styles, conditional formats, links, clipboard, autofill, theme,
